@@ -183,6 +183,38 @@ pub fn run_c11(ctx: &mut Ctx) {
             }
         }
     }
+    // a second small product over near-neighbour subtags (numeric regions sharing digits, scripts and
+    // languages differing in one letter, the "unknown" codes Zzzz / ZZ), all four flag pairs
+    if ctx.shard == 0 {
+        let nl = ["en", "em", "und"];
+        let ns = [None, Some("Latn"), Some("Latm"), Some("Zzzz"), Some("Katn")];
+        let nr = [None, Some("150"), Some("151"), Some("051"), Some("ZZ"), Some("US"), Some("UT")];
+        let mut nids: Vec<String> = vec![];
+        for l in nl {
+            for sc in ns {
+                for rg in nr {
+                    let mut t = l.to_string();
+                    if let Some(x) = sc {
+                        t.push('-');
+                        t.push_str(x);
+                    }
+                    if let Some(x) = rg {
+                        t.push('-');
+                        t.push_str(x);
+                    }
+                    nids.push(t);
+                }
+            }
+        }
+        for a in &nids {
+            for b in &nids {
+                let (Ok(la), Ok(lb)) = (a.parse::<Locale>(), b.parse::<Locale>()) else { continue };
+                mon::begin_case(a.as_bytes());
+                ctx.count("product:near-neighbours");
+                judge_pair(ctx, &la, &lb);
+            }
+        }
+    }
     ctx.extra.insert("product_domain".into(), json!({"identifiers": ids.len(), "pairs": ids.len() * ids.len(), "flag_pairs": 4, "extension_combinations_per_pair": 4}));
     mon::idle();
     // random pairs: b is a perturbation of a (fields dropped / changed) so that all outcomes occur
@@ -192,6 +224,55 @@ pub fn run_c11(ctx: &mut Ctx) {
         ctx.rng_state = Some(r.state());
         let sa = gen::gen_sloc(&mut r, true, true);
         let mut sb = if r.chance(1, 5) { gen::gen_sloc(&mut r, true, true) } else { sa.clone() };
+        // change exactly one character of one subtag (a near neighbour: a packed / hashed comparison that
+        // collides on neighbouring values is only visible on such pairs)
+        fn bump(s: &str, r: &mut Rng) -> String {
+            let mut b = s.as_bytes().to_vec();
+            if b.is_empty() {
+                return s.to_string();
+            }
+            let i = r.below(b.len());
+            b[i] = match b[i] {
+                b'0'..=b'9' => b'0' + ((b[i] - b'0') + 1 + r.below(8) as u8) % 10,
+                b'a'..=b'z' => b'a' + ((b[i] - b'a') + 1 + r.below(24) as u8) % 26,
+                b'A'..=b'Z' => b'A' + ((b[i] - b'A') + 1 + r.below(24) as u8) % 26,
+                c => c,
+            };
+            String::from_utf8(b).unwrap_or_else(|_| s.to_string())
+        }
+        if r.chance(1, 3) {
+            match r.below(4) {
+                0 => {
+                    if let Some(x) = sb.id.region.clone() {
+                        sb.id.region = Some(bump(&x, &mut r));
+                    }
+                }
+                1 => {
+                    if let Some(x) = sb.id.script.clone() {
+                        sb.id.script = Some(bump(&x, &mut r));
+                    }
+                }
+                2 => {
+                    if sb.id.lang != "und" {
+                        let x = bump(&sb.id.lang.clone(), &mut r);
+                        if x != "und" {
+                            sb.id.lang = x;
+                        }
+                    }
+                }
+                _ => {
+                    if let Some(x) = sb.id.variants.last().cloned() {
+                        let k = sb.id.variants.len() - 1;
+                        let nb = bump(&x, &mut r);
+                        // keep it a variant: the first character of a 4-character variant must stay a digit
+                        if crate::refspec::is_variant(nb.as_bytes()) {
+                            sb.id.variants[k] = nb;
+                        }
+                    }
+                }
+            }
+            ctx.count("random-pairs: near neighbour (one character of one subtag changed)");
+        }
         for _ in 0..r.below(3) {
             match r.below(8) {
                 0 => sb.id.lang = "und".into(),
@@ -327,6 +408,119 @@ fn reroute(l: &Locale, r: &mut Rng) -> (Locale, &'static str) {
     }
 }
 
+/// A *different* logical value that differs from `l` in one small aspect (moves one element between
+/// two adjacent containers, or changes one element minimally). Near neighbours are what a hand-written
+/// Eq/Ord/Hash that flattens or truncates its fields confuses.
+fn neighbour(l: &Locale, r: &mut Rng) -> Option<(Locale, &'static str)> {
+    let mut m = l.clone();
+    let u = &l.extensions.unicode;
+    let t = &l.extensions.transform;
+    match r.below(7) {
+        0 => {
+            // move the last type of one keyword to the front of the next keyword (same flattened type sequence)
+            let keys: Vec<&str> = u.keyword_keys().collect();
+            if keys.len() < 2 {
+                return None;
+            }
+            let i = r.below(keys.len() - 1);
+            let mut a: Vec<&str> = u.keyword(keys[i]).ok()?.collect();
+            let mut b: Vec<&str> = u.keyword(keys[i + 1]).ok()?.collect();
+            if let Some(x) = a.pop() {
+                b.insert(0, x);
+            } else if !b.is_empty() {
+                a.push(b.remove(0));
+            } else {
+                return None;
+            }
+            m.extensions.unicode.set_keyword(keys[i], &a).ok()?;
+            m.extensions.unicode.set_keyword(keys[i + 1], &b).ok()?;
+            Some((m, "neighbour: keyword type moved to the adjacent key"))
+        }
+        1 => {
+            let keys: Vec<&str> = t.tfield_keys().collect();
+            if keys.len() < 2 {
+                return None;
+            }
+            let i = r.below(keys.len() - 1);
+            let mut a: Vec<&str> = t.tfield(keys[i]).ok()?.collect();
+            let mut b: Vec<&str> = t.tfield(keys[i + 1]).ok()?.collect();
+            if let Some(x) = a.pop() {
+                b.insert(0, x);
+            } else if !b.is_empty() {
+                a.push(b.remove(0));
+            } else {
+                return None;
+            }
+            m.extensions.transform.set_tfield(keys[i], &a).ok()?;
+            m.extensions.transform.set_tfield(keys[i + 1], &b).ok()?;
+            Some((m, "neighbour: tfield value moved to the adjacent key"))
+        }
+        2 => {
+            // an attribute becomes the first type of the first keyword (or vice versa)
+            let keys: Vec<&str> = u.keyword_keys().collect();
+            let attrs: Vec<&str> = u.attributes().collect();
+            let k = *keys.first()?;
+            let mut vals: Vec<&str> = u.keyword(k).ok()?.collect();
+            if let Some(a) = attrs.last() {
+                m.extensions.unicode.remove_attribute(*a).ok()?;
+                vals.insert(0, a);
+            } else if !vals.is_empty() {
+                let v = vals.remove(0);
+                m.extensions.unicode.set_attribute(v).ok()?;
+            } else {
+                return None;
+            }
+            m.extensions.unicode.set_keyword(k, &vals).ok()?;
+            Some((m, "neighbour: attribute <-> first keyword type"))
+        }
+        3 => {
+            // the variant list loses its last element / a variant moves into the tlang
+            let vs: Vec<Variant> = l.id.variants().cloned().collect();
+            if vs.is_empty() {
+                return None;
+            }
+            m.id.set_variants(&vs[..vs.len() - 1]);
+            if let Some(tl) = t.tlang() {
+                let mut tl = tl.clone();
+                let mut tv: Vec<Variant> = tl.variants().cloned().collect();
+                tv.push(vs[vs.len() - 1]);
+                tl.set_variants(&tv);
+                m.extensions.transform.set_tlang(tl).ok()?;
+            }
+            Some((m, "neighbour: last variant dropped / moved into the tlang"))
+        }
+        4 => {
+            // region of the id and region of the tlang swapped
+            let tl = t.tlang()?.clone();
+            if tl.region == l.id.region && tl.script == l.id.script {
+                return None;
+            }
+            let mut tl2 = tl.clone();
+            tl2.region = l.id.region;
+            tl2.script = l.id.script;
+            m.id.region = tl.region;
+            m.id.script = tl.script;
+            m.extensions.transform.set_tlang(tl2).ok()?;
+            Some((m, "neighbour: script/region swapped between id and tlang"))
+        }
+        5 => {
+            // one private tag becomes a keyword type / is dropped
+            let tags: Vec<&str> = l.extensions.private.tags().collect();
+            let tg = *tags.last()?;
+            m.extensions.private.remove_tag(tg).ok()?;
+            Some((m, "neighbour: last private tag dropped"))
+        }
+        _ => {
+            // language cleared (und) with everything else kept
+            if l.id.language.is_empty() {
+                return None;
+            }
+            m.id.language.clear();
+            Some((m, "neighbour: language cleared"))
+        }
+    }
+}
+
 fn item(loc: Locale, route: &'static str, desc: Value) -> Item {
     let s = loc.to_string();
     let ids = loc.id.to_string();
@@ -356,6 +550,9 @@ pub fn c12_check_two(a: &Locale, b: &Locale) -> Vec<Fail> {
     }
     if a.id == b.id && (h64(&a.id) != h64(&b.id) || a.id.cmp(&b.id) != Ordering::Equal) {
         out.push(fail("equal-but-hash-or-cmp-differ", format!("{}", a.id)));
+    }
+    if sa != sb && a.cmp(b) == Ordering::Equal {
+        out.push(fail("cmp-equal-but-different", format!("{:?} and {:?} are different values but compare Equal", sa, sb)));
     }
     if a.cmp(b) != b.cmp(a).reverse() || a.id.cmp(&b.id) != b.id.cmp(&a.id).reverse() || a.partial_cmp(b) != Some(a.cmp(b)) {
         out.push(fail("cmp-antisymmetry", format!("{:?} vs {:?}", sa, sb)));
@@ -405,7 +602,16 @@ pub fn run_c12(ctx: &mut Ctx) {
         let (l, route, desc) = gen_value(&mut r);
         let mut routes_seen = vec![route];
         pool.push(item(l.clone(), route, desc.clone()));
-        for _ in 0..4 {
+        for k in 0..4 {
+            if k == 3 {
+                // one slot of every logical value goes to a near neighbour (a different value) when one exists
+                if let Some((m, rt)) = (0..4).find_map(|_| neighbour(&l, &mut r)) {
+                    if m.to_string() != l.to_string() {
+                        pool.push(item(m, rt, json!({"neighbour_of": l.to_string(), "route": rt})));
+                        continue;
+                    }
+                }
+            }
             let (m, rt) = reroute(&l, &mut r);
             if !routes_seen.contains(&rt) {
                 routes_seen.push(rt);
@@ -441,6 +647,12 @@ pub fn run_c12(ctx: &mut Ctx) {
                 }
             } else {
                 ctx.count("pairs:different");
+                if a.route.starts_with("neighbour") || b.route.starts_with("neighbour") {
+                    ctx.count("pairs:different,one side a near neighbour");
+                }
+                if c == Ordering::Equal || a.loc.partial_cmp(&b.loc) == Some(Ordering::Equal) {
+                    viol(ctx, "cmp-equal-but-different", json!({"a": a.s, "b": b.s, "route_a": a.route, "route_b": b.route}), format!("{:?} and {:?} are different values (different canonical strings) but compare Equal: the order is not a strict total order", a.s, b.s));
+                }
             }
             if a.ids == b.ids && (a.idhash != b.idhash || a.loc.id.cmp(&b.loc.id) != Ordering::Equal) {
                 viol(ctx, "equal-but-hash-or-cmp-differ", json!({"a": a.ids, "b": b.ids, "route_a": a.route, "route_b": b.route}), format!("ids {:?}", a.ids));
@@ -533,6 +745,8 @@ pub fn run_c12(ctx: &mut Ctx) {
             a.ids.replace('-', "_"),
             a.ids[..a.ids.len() - 1].to_string(),
             format!("{}-", a.ids),
+            format!("{}x", a.ids),
+            format!("{}-x-{}", a.ids, a.ids),
             other.clone(),
             String::new(),
         ];
@@ -548,7 +762,7 @@ pub fn run_c12(ctx: &mut Ctx) {
         // subtags
         let li = &a.loc.id;
         let lt = li.language.as_str().to_string();
-        for c in [lt.clone(), lt.to_ascii_uppercase(), format!("{}x", lt), "und".to_string(), String::new()] {
+        for c in [lt.clone(), lt.to_ascii_uppercase(), format!("{}x", lt), format!("{}-x", lt), format!("{}-Latn-US", lt), "und".to_string(), String::new()] {
             ctx.evals += 1;
             if (li.language == c.as_str()) != (c == lt) {
                 viol(ctx, "subtag-eq-str", json!({"type": "language", "value": lt, "str": c}), format!("Language {:?} == {:?} is {}", lt, c, li.language == c.as_str()));
@@ -574,7 +788,7 @@ pub fn run_c12(ctx: &mut Ctx) {
         }
         for v in li.variants() {
             let t = v.as_str().to_string();
-            for c in [t.clone(), t.to_ascii_uppercase(), t[..t.len() - 1].to_string()] {
+            for c in [t.clone(), t.to_ascii_uppercase(), t[..t.len() - 1].to_string(), format!("{}1", t), format!("{}-{}", t, t)] {
                 ctx.evals += 1;
                 if (*v == c.as_str()) != (c == t) || (*v == *c.as_str()) != (c == t) {
                     viol(ctx, "subtag-eq-str", json!({"type": "variant", "value": t, "str": c}), format!("Variant {:?} == {:?} is {}", t, c, *v == c.as_str()));
